@@ -22,10 +22,12 @@ import (
 	"net"
 	"os"
 	"runtime"
+	"strings"
 	"sync"
 	"time"
 
 	"tunnox-core/internal/app/server"
+	"tunnox-core/internal/cloud/managers"
 	"tunnox-core/internal/cloud/models"
 	"tunnox-core/internal/cloud/repos"
 	"tunnox-core/internal/core/storage"
@@ -69,6 +71,8 @@ const (
 	//                          in an hour (1) / an hour ago (2); Type anonymous (0) / registered (1)
 	evWhite   = 21 // a cidr  IPManager.AddToWhitelist (exact address, or cidr=1: the /32 resp. /128 range)
 	evUnwhite = 22 // a cidr  IPManager.RemoveFromWhitelist
+	evOverlap = 24 // n       the NEXT op is a handshake message that overlaps with the n ops after it: they complete between its gate
+	//                         checks and the rest of it (hook in the cloud lookup the handler makes right after the gates)
 	evCorrupt  = 14 // x kind  the stored credential (ClientConfig.SecretKeyEncrypted) of client x becomes unusable:
 	//                         0 "" (unmigrated legacy record) | 1 not base64 | 2 base64 but not decryptable |
 	//                         3 sealed under another master key | 4 base64 shorter than a nonce
@@ -159,6 +163,8 @@ type hconn struct {
 	tr   *transport
 	addr int
 	recv int // number of the last challenge received on this connection (0 = none)
+	leak     bool   // extractIP(RemoteAddr) is not the plain IP: every gate sees this peer under another key
+	leakKind string
 	// specification monitor state, bound to one ControlConnection object
 	cc     *session.ControlConnection
 	proved int    // client index this ControlConnection object has proved (0 = none)
@@ -207,6 +213,8 @@ type stepObs struct {
 	K   []int    `json:"k"`           // per address: blacklisted
 	F   []int    `json:"f"`           // per address: failure count
 	N   int      `json:"n"`           // number of clients
+	Hooked int   `json:"h,omitempty"` // this handshake passed its gate checks before the overlapping ops ran
+	Eff    int   `json:"ea,omitempty"` // evOpen: 1 = extractIP kept the zone, the gates see this peer as a different address
 }
 type caseIn struct {
 	Fam   map[string]int `json:"fam"`
@@ -487,6 +495,10 @@ func (w *world) msgStep(step int, op []int, o *stepObs, out *caseOut) {
 		b := bannedNow(ip)
 		ok, _ := fx.IPManager.IsAllowed(ip)
 		gated = b || !ok || w.specBlocked(c.addr) || w.specBan[c.addr]
+		if c.leak {
+			// already reported when the connection was opened (one finding, no cascade): the gates see another key
+			gated = false
+		}
 		// bind the monitor state to the ControlConnection object
 		if preSnap[k].cc != c.cc {
 			c.cc, c.proved, c.live = preSnap[k].cc, 0, ""
@@ -834,7 +846,48 @@ func runCase(raw json.RawMessage) interface{} {
 		fmt.Sscanf(k, "%d", &a)
 		w.fam[a] = v
 	}
-	for i, op := range in.Ops {
+	steps := make([]stepObs, len(in.Ops))
+	for i := 0; i < len(in.Ops); i++ {
+		op := in.Ops[i]
+		if op[0] == evOverlap {
+			// the next op (a handshake message on one connection) runs with a hook between its gate checks and the rest:
+			// the following n ops (handshakes of OTHER connections) complete at that point
+			n := op[1]
+			w.invariants(i)
+			w.observe(&steps[i], &in)
+			inner := []int{}
+			for j := i + 2; j <= i+1+n && j < len(in.Ops); j++ {
+				inner = append(inner, j)
+			}
+			fired := false
+			cloudHook = func() {
+				fired = true
+				for _, j := range inner {
+					w.exec(j, in.Ops[j], &steps[j], out, &in)
+				}
+			}
+			w.exec(i+1, in.Ops[i+1], &steps[i+1], out, &in)
+			cloudHook = nil
+			if fired {
+				steps[i+1].Hooked = 1
+			} else {
+				for _, j := range inner {
+					w.exec(j, in.Ops[j], &steps[j], out, &in)
+				}
+			}
+			i += 1 + len(inner)
+			continue
+		}
+		w.exec(i, op, &steps[i], out, &in)
+	}
+	out.Steps = steps
+	return w.finish(&in, out)
+}
+
+// exec runs one event and records the observation after it
+func (w *world) exec(i int, op []int, po *stepObs, out *caseOut, pin *caseIn) {
+	in := *pin
+	{
 		o := stepObs{}
 		switch op[0] {
 		case evMsg, evBadJSON:
@@ -960,7 +1013,19 @@ func runCase(raw json.RawMessage) interface{} {
 			tr := &transport{ip: w.ip(op[2]), remote: remoteAddr(w.ip(op[2]), w.fam[op[2]], wrap)}
 			conn, err := fx.Session.CreateConnection(tr, tr)
 			must(err)
-			w.conns[op[1]] = &hconn{id: conn.ID, tr: tr, addr: op[2]}
+			hc := &hconn{id: conn.ID, tr: tr, addr: op[2]}
+			// predicate: the gate decision depends only on the IP — extractIP = the peer address without port and zone
+			if ex := server.VerifExtractIP(tr.remote); ex != w.ip(op[2]) {
+				hc.leak = true
+				hc.leakKind = "extractip-not-plain-ip"
+				if wrap == 4 {
+					hc.leakKind = "extractip-generic-addr-keeps-zone"
+				}
+				o.Eff = 1
+				w.v(i, hc.leakKind, "extractIP(%T %q) = %q, not the plain IP %q: blacklist, ban and rate-limit entries for the address do not apply to this peer",
+					tr.remote, tr.remote.String(), ex, w.ip(op[2]))
+			}
+			w.conns[op[1]] = hc
 		case evRegister:
 			cl, err := fx.Cloud.GenerateAnonymousCredentials()
 			must(err)
@@ -972,8 +1037,12 @@ func runCase(raw json.RawMessage) interface{} {
 			w.invariants(i)
 		}
 		w.observe(&o, &in)
-		out.Steps = append(out.Steps, o)
+		*po = o
 	}
+}
+
+func (w *world) finish(pin *caseIn, out *caseOut) interface{} {
+	in := *pin
 	// distinctness of the abstraction: equal strings <=> equal numbers
 	seen := map[string]int{}
 	for i := 1; i < len(w.secrets); i++ {
@@ -1020,6 +1089,26 @@ func runCase(raw json.RawMessage) interface{} {
 	return out
 }
 
+func genExtractTable() {
+	fmt.Println("(* extractIP (auth_handler.go) over peer address shapes: (family, shape, typed TCP/UDP, input carries a zone, output = plain IP) *)")
+	fmt.Println("Definition extract_table : list (N * N * bool * bool * bool) := [")
+	rows := []string{}
+	ips := map[int]string{0: "203.0.113.7", 1: "2001:db8::7", 2: "fe80::bad:1"}
+	for fam := 0; fam <= 2; fam++ {
+		for wrap := 0; wrap <= 4; wrap++ {
+			if wrap == 3 && fam != 0 {
+				continue
+			}
+			a := remoteAddr(ips[fam], fam, wrap)
+			typed := wrap == 0 || wrap == 1 || wrap == 3
+			zoned := fam == 2 && wrap != 2
+			rows = append(rows, fmt.Sprintf(" (%d, %d, %v, %v, %v)", fam, wrap, typed, zoned, server.VerifExtractIP(a) == ips[fam]))
+		}
+	}
+	fmt.Println(strings.Join(rows, ";\n"))
+	fmt.Println("].")
+}
+
 func gen() {
 	d := security.DefaultBruteForceConfig()
 	fmt.Println("(* generated by verif_c03 gen from /repo's working tree — do not edit *)")
@@ -1028,6 +1117,28 @@ func gen() {
 	fmt.Printf("Definition PermanentBanAt : N := %d.\n", d.PermanentBanAt)
 	fmt.Printf("Definition T_Handshake : N := %d.\n", byte(packet.Handshake))
 	fmt.Printf("Definition T_HandshakeResp : N := %d.\n", byte(packet.HandshakeResp))
+	genExtractTable()
+}
+
+// cloudHook runs once inside the next cloud lookup of the auth handler, i.e. after the gate checks of that handshake
+var cloudHook func()
+
+func runHook() {
+	if f := cloudHook; f != nil {
+		cloudHook = nil
+		f()
+	}
+}
+
+type hookCloud struct{ managers.CloudControlAPI }
+
+func (h *hookCloud) GetClientConfig(id int64) (*models.ClientConfig, error) {
+	runHook()
+	return h.CloudControlAPI.GetClientConfig(id)
+}
+func (h *hookCloud) GenerateAnonymousCredentials() (*models.Client, error) {
+	runHook()
+	return h.CloudControlAPI.GenerateAnonymousCredentials()
 }
 
 // newFixture builds every server component anew over the one storage of this process (= a server restart)
@@ -1037,6 +1148,9 @@ func newFixture() {
 	must(err)
 	cfgRepo = repos.NewClientConfigRepository(fx.Repo)
 	fx.RateLimiter.SetIPRateLimit(1000000, 1000000)
+	// the real ServerAuthHandler over the real cloud control, with a hook point in the lookups it makes after the gates
+	fx.Auth = server.NewServerAuthHandler(&hookCloud{fx.Cloud}, fx.Session, fx.BruteForce, fx.IPManager, fx.RateLimiter, fx.SecretKeys)
+	fx.Session.SetAuthHandler(fx.Auth)
 }
 
 func main() {
